@@ -42,6 +42,15 @@ def plan(tier, seed):
         pass
     # the structures the writer hands to the serialiser carry the 32-bit markers the serialiser relies on (checked on
     # everything write_column emits: chunk, encoding stats, statistics, page headers)
+    from .e2 import ch
+    t = 150 if tier == "quick" else 500
+    for nm in (2, 3):
+        # the schema elements handed to the serialiser hold integers in their enum fields (nullability modes that
+        # compute the repetition type)
+        j = ch("C10", "vf/pyshim/h_meta.py", "h_make_metadata", t, ["writer.make_metadata"],
+               shape=dict(has_nulls=["True", "False", "None", "list"][nm]), env=dict(VERIF_NULLMODE=nm))
+        j["name"] += "[has_nulls=%d]" % nm
+        jobs.append(j)
     from . import wc_lattice
     wc = wc_lattice.jobs("C10", tier)
     jobs += wc if tier == "thorough" else [j for j in wc if "cats=1,none,null=1" in j["name"] or
